@@ -124,7 +124,7 @@ func ZzvC16ProxyTwin() {
 
 type zzvNestedPlugin struct {
 	e      *evictorProxy
-	second *corev1.Pod
+	others []*corev1.Pod // the pods evicted by the other goroutines, each nested in the previous one's call
 	depth  int
 	issued []*corev1.Pod
 }
@@ -132,8 +132,8 @@ type zzvNestedPlugin struct {
 func (p *zzvNestedPlugin) Name() string { return "zzv-nested" }
 func (p *zzvNestedPlugin) Evict(ctx context.Context, pod *corev1.Pod, o framework.EvictOptions) bool {
 	p.depth++
-	if p.depth == 1 && p.second != nil {
-		p.e.Evict(ctx, p.second, o) // the other goroutine, start to finish
+	if p.depth <= len(p.others) {
+		p.e.Evict(ctx, p.others[p.depth-1], o) // the next goroutine, start to finish
 	}
 	p.issued = append(p.issued, pod)
 	return true
@@ -152,8 +152,11 @@ func ZzvC16ProxyRace() {
 		is := strconv.Itoa(i)
 		return &corev1.Pod{ObjectMeta: metav1.ObjectMeta{Namespace: nss[zzverif.Choice("ns"+is, 2)], Name: "p" + is}, Spec: corev1.PodSpec{NodeName: nodes[zzverif.Choice("node"+is, 2)]}}
 	}
-	p1, p2 := mk(1), mk(2)
-	plugin := &zzvNestedPlugin{second: p2}
+	p1 := mk(1)
+	plugin := &zzvNestedPlugin{}
+	for g := 2; g <= zzverif.Param("goroutines"); g++ {
+		plugin.others = append(plugin.others, mk(g))
+	}
 	e := &evictorProxy{evictionLimiter: lim, handle: &frameworkImpl{evictPlugins: []framework.EvictPlugin{plugin}}}
 	plugin.e = e
 	e.Evict(context.TODO(), p1, framework.EvictOptions{})
@@ -162,8 +165,8 @@ func ZzvC16ProxyRace() {
 		byNode[p.Spec.NodeName]++
 		byNs[p.Namespace]++
 	}
-	if len(plugin.issued) == 2 {
-		zzverif.Reach("both-evictions-issued")
+	if len(plugin.issued) == 1+len(plugin.others) {
+		zzverif.Reach("all-evictions-issued")
 	}
 	for _, n := range nodes {
 		zzverif.Assert(zzverif.Implies(hasNode, byNode[n] <= capNode), "evictions per node never exceed the cap, no matter how many evict at the same time")
